@@ -539,13 +539,29 @@ func NewRequest(req *http.Request, withBody bool) (*Request, error) {
 		r.Headers = append(r.Headers, *th)
 	}
 
-	for n, vs := range req.URL.Query() {
-		for _, v := range vs {
-			r.QueryString = append(r.QueryString, QueryString{
-				Name:  n,
-				Value: v,
-			})
+	// Every pair of the query is listed: url.Values drops those it cannot
+	// parse (a ';' in the pair, a stray '%'), although they are in the URL and
+	// reach the origin. What cannot be unescaped is listed as it is written.
+	for _, kv := range strings.Split(req.URL.RawQuery, "&") {
+		if kv == "" {
+			continue
 		}
+
+		n, v := kv, ""
+		if i := strings.Index(kv, "="); i >= 0 {
+			n, v = kv[:i], kv[i+1:]
+		}
+		if u, err := url.QueryUnescape(n); err == nil {
+			n = u
+		}
+		if u, err := url.QueryUnescape(v); err == nil {
+			v = u
+		}
+
+		r.QueryString = append(r.QueryString, QueryString{
+			Name:  n,
+			Value: v,
+		})
 	}
 
 	pd, err := postData(req, withBody)
